@@ -227,6 +227,15 @@ func (r *rewriter) collectYieldFunc(pkg loader.Pkg, f *loader.File) {
 
 	info := f.Pkg.TypesInfo
 	cache := map[ast.Node]bool{}
+	// yield / yieldFrom must be called directly, e.g., y := Yield[int]; y(1)
+	// would call the stub, and the value would be dropped silently
+	var uses []*ast.Ident
+	called := map[*ast.Ident]bool{}
+	defer func() {
+		for _, id := range uses {
+			r.assert(pkg, called[id], id, "%s must be called directly, not used as a value", id.Name)
+		}
+	}()
 	astutil.Apply(f.File, func(c *astutil.Cursor) bool {
 		switch f := c.Node().(type) {
 		case *ast.FuncDecl:
@@ -248,9 +257,15 @@ func (r *rewriter) collectYieldFunc(pkg loader.Pkg, f *loader.File) {
 		case *ast.FuncDecl, *ast.FuncLit:
 			exit()
 
+		case *ast.Ident:
+			if obj := info.Uses[n]; obj != nil && (obj == r.yieldFunc || obj == r.yieldFromFunc) {
+				uses = append(uses, n)
+			}
+
 		case *ast.CallExpr:
 			callee := typeutil.Callee(info, n)
 			if callee == r.yieldFunc || callee == r.yieldFromFunc {
+				called[calleeIdent(n.Fun)] = true
 				switch f := outer().(type) {
 				case *ast.FuncDecl:
 					checkSignature(info.TypeOf(f.Name), n.Pos())
